@@ -87,8 +87,18 @@ type c19edit struct {
 	wait    time.Duration
 }
 
+// c19types: the module's type definitions; the typed route validates request bodies against them
+const c19types = ": Item {\n  name: str!\n  qty: int!\n}\n\n"
+
+// in a version that does not load the definitions differ too (a required field more, another type)
+const c19typesBroken = ": Item {\n  name: str!\n  qty: str!\n  sku: str!\n}\n\n"
+
+func c19typed(v int) string {
+	return fmt.Sprintf("@ POST /t {\n  < input: Item\n  > {version: %d, name: input.name, twice: input.qty * 2}\n}\n\n", v)
+}
+
 func c19valid(v int) string {
-	return fmt.Sprintf("@ GET /v {\n  $ base = %d\n  > {version: base, doubled: base * 2}\n}\n\n@ GET /other {\n  > {ok: true}\n}\n", v)
+	return c19types + fmt.Sprintf("@ GET /v {\n  $ base = %d\n  > {version: base, doubled: base * 2}\n}\n\n@ GET /other {\n  > {ok: true}\n}\n\n", v) + c19typed(v)
 }
 
 func c19content(kind string, v int) string {
@@ -96,9 +106,9 @@ func c19content(kind string, v int) string {
 	case "valid", "recreated":
 		return c19valid(v)
 	case "parse-error":
-		return fmt.Sprintf("@ GET /v {\n  $ base = %d\n  > {version: base, doubled: base * \n", v)
+		return c19typesBroken + c19typed(v) + fmt.Sprintf("@ GET /v {\n  $ base = %d\n  > {version: base, doubled: base * \n", v)
 	case "semantic-error":
-		return fmt.Sprintf("@ GET /v {\n  $ base = %d\n  $ base = %d\n  > {version: base}\n}\n", v, v+1)
+		return c19typesBroken + c19typed(v) + fmt.Sprintf("@ GET /v {\n  $ base = %d\n  $ base = %d\n  > {version: base}\n}\n", v, v+1)
 	case "empty":
 		return ""
 	}
@@ -180,8 +190,12 @@ func c19fresh(content string, exists bool) *simResp {
 		return nil
 	}
 	r := sv.do(simReq{path: "/v", remote: "10.0.0.9:9"})
+	t := sv.do(simReq{method: "POST", path: "/t", remote: "10.0.0.9:9", body: c19typedBody})
+	r.body = r.body + " | POST /t -> " + fmt.Sprint(t.status) + " " + t.body
 	return &r
 }
+
+const c19typedBody = `{"name":"widget","qty":3}`
 
 func c19Dev(s *sim.Sim, p *sim.Params) {
 	dir, err := os.MkdirTemp("", "c19-")
@@ -234,7 +248,19 @@ func c19Dev(s *sim.Sim, p *sim.Params) {
 	probe := func() (int, string, bool) {
 		req := httptest.NewRequest("GET", "/v", nil)
 		req.RemoteAddr = "10.0.0.9:9"
-		return s.HTTPDo(addr, req)
+		st, body, refused := s.HTTPDo(addr, req)
+		if refused {
+			return st, body, true
+		}
+		// and a typed request, validated against the module's type definitions
+		treq := httptest.NewRequest("POST", "/t", strings.NewReader(c19typedBody))
+		treq.Header.Set("Content-Type", "application/json")
+		treq.RemoteAddr = "10.0.0.9:9"
+		tst, tbody, trefused := s.HTTPDo(addr, treq)
+		if trefused {
+			return st, body, true
+		}
+		return st, body + " | POST /t -> " + fmt.Sprint(tst) + " " + tbody, false
 	}
 	// Every content that loads in a fresh pipeline, in the order it was put on disk. A version
 	// that was on disk only briefly may legitimately never have been loaded (the debounce
